@@ -99,16 +99,23 @@ Apply(s, evs) == IF evs = <<>> THEN s ELSE Apply(Step(s, Head(evs)).st, Tail(evs
 
 Events(s) == IF Focus = 1 THEN FocusEvents(s) ELSE AllEvents(s)
 
+(* a coarse label of what an update did: one letter per liquidation step, h = close factor one half (health factor above 0.95 before
+   the step), f = the whole debt.  It is derived from the action records (no new behaviour); the replay uses it to stratify its sample
+   of paths, so that e.g. a run whose first step lifts the health factor across 0.95 ("fh") is always walked *)
+RECURSIVE KindStr(_)
+KindStr(a) == IF a = <<>> THEN "" ELSE (IF QGt(a[1].hf_before, QOf(95, 100)) THEN "h" ELSE "f") \o KindStr(Tail(a))
+KindOf(ev, acts) == IF ev.op = "update" THEN KindStr(acts) ELSE ""
+
 Init == /\ scn \in Scenarios
         /\ st = [Apply(InitSt(W0), scn) EXCEPT !.k = 0]
-        /\ last = [ev |-> [op |-> "init"], out |-> "ok", acts |-> <<>>]
+        /\ last = [ev |-> [op |-> "init"], out |-> "ok", acts |-> <<>>, kind |-> ""]
         /\ view = View(st)
 
 Next == /\ st.k < MaxSteps
         /\ \E ev \in Events(st) :
              LET r == Step(st, ev) IN
              /\ st' = r.st
-             /\ last' = [ev |-> ev, out |-> r.out, acts |-> r.acts]
+             /\ last' = [ev |-> ev, out |-> r.out, acts |-> r.acts, kind |-> KindOf(ev, r.acts)]
              /\ view' = View(r.st)
         /\ scn' = scn
 
